@@ -597,3 +597,64 @@ pub fn overlapping_inputs_full(
         .map(|f| f.file_number())
         .collect()
 }
+
+/// `CompactionManifest::add_boundary_inputs`; `chosen` are indexes into `level_files`. Returns file numbers.
+pub fn add_boundary_inputs(level_files: &[VFile], chosen: &[usize]) -> Vec<u64> {
+    let level: Vec<Arc<FileMetadata>> = level_files.iter().map(vfile).collect();
+    let mut compaction: Vec<Arc<FileMetadata>> = chosen.iter().map(|i| Arc::clone(&level[*i])).collect();
+    CompactionManifest::add_boundary_inputs_for_verif(&level, &mut compaction);
+    compaction.iter().map(|f| f.file_number()).collect()
+}
+
+/// `Version::some_file_overlaps_range`.
+pub fn some_file_overlaps_range(disjoint: bool, files: &[VFile], smallest: Option<Vec<u8>>, largest: Option<Vec<u8>>) -> bool {
+    let v: Vec<Arc<FileMetadata>> = files.iter().map(vfile).collect();
+    Version::some_file_overlaps_range_for_verif(disjoint, &v, smallest.as_deref(), largest.as_deref())
+}
+
+/// `Version::pick_level_for_memtable_output` on a version with the given files per level.
+pub fn pick_level_for_memtable_output(options: DbOptions, levels: &[(usize, Vec<VFile>)], smallest: &[u8], largest: &[u8]) -> usize {
+    let (v, _tc) = version_with(&options, levels);
+    v.pick_level_for_memtable_output(smallest, largest)
+}
+
+/// `CompactionManifest::is_base_level_for_key` called for each key in order on one manifest.
+pub fn is_base_level_for_keys(options: DbOptions, compaction_level: usize, levels: &[(usize, Vec<VFile>)], keys: &[(Vec<u8>, u64)]) -> Vec<bool> {
+    let (v, _tc) = version_with(&options, levels);
+    let node = Arc::new(parking_lot::RwLock::new(Node::new(v)));
+    let mut cm = CompactionManifest::new(&options, compaction_level);
+    cm.set_input_version(Arc::clone(&node));
+    keys.iter()
+        .map(|k| cm.is_base_level_for_key(&InternalKey::new(k.0.clone(), k.1, Operation::Put)))
+        .collect()
+}
+
+/// `Version::get_overlapping_files`: per level, the file numbers in result order.
+pub fn get_overlapping_files(options: DbOptions, levels: &[(usize, Vec<VFile>)], target: &(Vec<u8>, u64)) -> Vec<Vec<u64>> {
+    let (v, _tc) = version_with(&options, levels);
+    let r = v.get_overlapping_files(&InternalKey::new_for_seeking(target.0.clone(), target.1));
+    r.iter().map(|l| l.iter().map(|f| f.file_number()).collect()).collect()
+}
+
+/// `CompactionManifest::finalize_compaction_inputs` with `chosen` (indexes into the compaction level) as initial inputs.
+/// Returns (inputs level L, inputs level L+1, grandparents) as file numbers.
+pub fn finalize_compaction_inputs(
+    options: DbOptions,
+    compaction_level: usize,
+    levels: &[(usize, Vec<VFile>)],
+    chosen: &[usize],
+) -> (Vec<u64>, Vec<u64>, Vec<u64>) {
+    let (v, _tc) = version_with(&options, levels);
+    let initial: Vec<Arc<FileMetadata>> = chosen.iter().map(|i| Arc::clone(&v.files[compaction_level][*i])).collect();
+    let node = Arc::new(parking_lot::RwLock::new(Node::new(v)));
+    let mut cm = CompactionManifest::new(&options, compaction_level);
+    cm.set_input_version(Arc::clone(&node));
+    cm.set_compaction_level_files(initial);
+    let _ = cm.finalize_compaction_inputs();
+    let nums = |fs: &[Arc<FileMetadata>]| fs.iter().map(|f| f.file_number()).collect::<Vec<u64>>();
+    (
+        nums(cm.get_compaction_level_files()),
+        nums(cm.get_parent_level_files()),
+        nums(cm.grandparents_for_verif()),
+    )
+}
